@@ -1125,7 +1125,7 @@ def rule_arg_ro(ctx):
 
 
 def rule_class_state(ctx):
-    r = RuleResult('R-class-state', 'no kernel or UTPM method modifies in place an array that lives in class-level state (a cache filled once, '
+    r = RuleResult('R-class-state', 'no kernel or UTPM method modifies in place an array that lives in class-level or module-level state, or that a memoised function handed out (a cache filled once, '
                                     '`cls._cache[N] = fresh`, is a memo; arithmetic on the cached object through an alias changes what every later call '
                                     'receives: the result then depends on the calls made before)')
     eff = ctx.effects
@@ -1138,12 +1138,14 @@ def rule_class_state(ctx):
         for ev in sm.events:
             if ev.kind.startswith('call:'):
                 continue
-            if not any((x == ('p', me) and me is not None) or x == ('g', 'class-state') for x in ev.roots):
+            if not any((x == ('p', me) and me is not None) or x[0] == 'g' for x in ev.roots):
                 continue
             st = ev.node
             # memo fill: a plain store whose target is spelled from the class object itself
             tg = st.targets if isinstance(st, ast.Assign) else []
-            direct = [t for t in tg if isinstance(t, (ast.Subscript, ast.Attribute)) and _store_bases(t) == [me]]
+            glob = {n_ for n_, v_ in ctx.model.modules[fi.module].assigns.items()}
+            direct = [t for t in tg if isinstance(t, (ast.Subscript, ast.Attribute)) and (_store_bases(t) == [me] or (
+                len(_store_bases(t)) == 1 and _store_bases(t)[0] in glob and not eff._is_local(fi, _store_bases(t)[0])))]
             if isinstance(st, ast.Assign) and direct:
                 r.note('%s: `%s` fills class-level state (memo)' % (fi.qualname, norm(st)[:70]))
                 continue
